@@ -44,6 +44,9 @@ Definition norm_int (k : Z) (n : nat) : result nat :=
   let k' := if (0 <=? k)%Z then k else (k + Z.of_nat n)%Z in
   if ((0 <=? k') && (k' <? Z.of_nat n))%Z then Ok (Z.to_nat k') else Err IndexError.
 
+(* k is a valid (possibly negative) index of an axis of size n *)
+Definition int_in_range (k : Z) (n : nat) : Prop := (- Z.of_nat n <= k < Z.of_nat n)%Z.
+
 (* itertools.product( *ls): the last component varies fastest *)
 Fixpoint cart {A} (ls : list (list A)) : list (list A) :=
   match ls with
